@@ -277,6 +277,15 @@ func TestCheck(t *testing.T) {
 			Damage: []scen.Damage{{Op: "delete", File: k % 2}}}
 		do(Case{P2: &c})
 	}
+	// a 2 MiB file whose second MiB is all zero is damaged and rewritten (exact multiples of 1 MiB / 64 KiB)
+	if cfg.Mine(310) {
+		rec.Class("file>=1MiB-with-zero-tail")
+		c := scen.Case{Files: []scen.FileSpec{{Name: "img.bin", Size: 2 << 20, Kind: "halfzero", Seed: 90}, {Name: "c.bin", Size: 100, Kind: "random", Seed: 9}}, Slice: 65536, NRec: 2, GCreate: 4, GRepair: 2,
+			Damage: []scen.Damage{{Op: "flip", File: 0, Off: 77}}}
+		do(Case{P2: &c})
+		c1 := scen.Case1{NVol: 1, Files: []scen.FileSpec{{Name: "img.bin", Size: 1<<20 + 65536, Kind: "halfzero", Seed: 91}, {Name: "c.bin", Size: 100, Kind: "random", Seed: 9}}, Damage: []scen.Damage{{Op: "flip", File: 0, Off: 77}}}
+		do(Case{P1: &c1})
+	}
 	cfg.SetRapid(cfg.N(500, 7000), 1)
 	rapid.Check(t, func(rt *rapid.T) {
 		if !do(Case{P2: gen2(rt)}) {
